@@ -45,7 +45,7 @@ def run(ctx):
                 continue
         res.violation("regression input fails%s: %s: %s" % ("" if probe else " again", os.path.basename(f), common.crash_head(out) or out[:400]), None, f)
     n = 1200                        # per process; rapidcheck slows down super-linearly, so many short runs
-    jobs = common.NCPU * ctx.pick(1, 40)
+    jobs = common.NCPU * ctx.pick(1, 16)
     work = os.path.join(common.ROOT, "work", "c13-%d" % os.getpid())
     os.makedirs(work, exist_ok=True)
 
